@@ -36,6 +36,7 @@ func TestMain(m *testing.M) {
 	vh.Assume("'all messages received so far' is read as 'delivered before the failing package' (EEDs drained afterwards may or may not be included); hooks registered while a response is in flight are not generated; PACKSIZE values are decimal numbers in 256..65535")
 	vh.Rule("also: Info.DebugLogPackages is on in a quarter of the cases (every package is printed while it is sent / received)")
 	vh.QuietLog()
+	vh.Rule("also: after a response that announced a packet size, a request longer than one packet is sent on the same (older) channel: every packet but the last has exactly the announced size, only the last carries EOM, no byte missing")
 	vh.Main(m, "C11")
 }
 
